@@ -44,7 +44,7 @@ def run(ctx, chk):
     st_read = prog.field_offset("cbor_decoder_result", "read")
     st_status = prog.field_offset("cbor_decoder_result", "status")
     FIN = prog.enum("cbor_decoder_status")["CBOR_DECODER_FINISHED"]
-    ps = P.Executor(prog, eff, loop_bound=2).run("cbor_load")
+    ps = P.Executor(prog, eff, loop_bound=2, inline=O.static_callees(prog, eff, "cbor_load")).run("cbor_load")
     chk.floor("C14.window", "paths of cbor_load (up to 3 decoder calls)", len(ps), 40)
     nd = ncont = 0
     for k, pa in enumerate(ps):
